@@ -31,7 +31,7 @@ type model struct {
 // gkey keeps states with a guarded source apart from structurally equal ones without
 func gkey() string {
 	if guardSrc != nil {
-		return "guarded:"
+		return "guarded:" + guardDump + ":"
 	}
 	return ""
 }
@@ -72,6 +72,28 @@ func construct(op Op) (s col.StackLike[int], m model, out rt.Outcome) {
 				src.AddValue(vals[i])
 			}
 			s = C.MakeFromSequence(src)
+			m = model{vals: vals, cap: -1}
+			guardSrc, guardDump = src, common.View(src)
+		case "MakeFromStackThenPushSource", "MakeFromArrayOfStackThenPushSource", "MakeFromOwnArrayViewThenPush":
+			// a copy of a stack that has room to spare, and then BOTH grow: each keeps its own values
+			src := C.MakeWithCapacity(uint(op.I + 3))
+			vals := mk(op.I)
+			for i := len(vals) - 1; i >= 0; i-- {
+				src.AddValue(vals[i])
+			}
+			switch op.K {
+			case "MakeFromStackThenPushSource":
+				s = C.MakeFromSequence(src)
+			case "MakeFromArrayOfStackThenPushSource":
+				s = C.MakeFromArray(src.AsArray())
+			default:
+				view := src.AsArray()
+				s = C.MakeFromArray(view)
+				for i := range view {
+					view[i] = -7 // the caller's array is the caller's
+				}
+			}
+			src.AddValue(77)
 			m = model{vals: vals, cap: -1}
 			guardSrc, guardDump = src, common.View(src)
 		}
@@ -307,11 +329,12 @@ func units(tier string) []engine.Unit {
 			inits = append(inits, Op{K: "MakeFromArray", I: n}, Op{K: "MakeFromSequence", I: n})
 		}
 		for n := 0; n <= 5; n++ {
-			inits = append(inits, Op{K: "MakeFromStack", I: n})
+			inits = append(inits, Op{K: "MakeFromStack", I: n}, Op{K: "MakeFromStackThenPushSource", I: n}, Op{K: "MakeFromArrayOfStackThenPushSource", I: n}, Op{K: "MakeFromOwnArrayViewThenPush", I: n})
 		}
 		s := &seqx.Search[Op]{Name: name, MaxSize: 1 << 30, Ops: oneVal, Exec: exec(r, name), Inits: inits}
 		s.Run(r)
 	}})
+	us = append(us, fromBusyQueue(int(col.Stack[int](common.N()).DefaultCapacity())), fromBusyQueue(3))
 	us = append(us, engine.Unit{Name: "capacity-0", Run: func(r *engine.Rec) {
 		// MakeWithCapacity(0) is documented to panic
 		_, _, out := construct(Op{K: "MakeWithCapacity", I: 0})
